@@ -4,7 +4,7 @@
 import json, sys
 prop, wt, n, out = sys.argv[1], sys.argv[2], sys.argv[3], sys.argv[4]
 p = next(json.loads(l) for l in open("/verif/properties.jsonl") if json.loads(l)["id"] == prop)
-AVOID = """a cache of a decompressed public key looked up by the x coordinate only; a thread-local scratch buffer that is not cleared on an error path; skipping or mis-computing the size re-check after signing when the sequence number's encoding grows; IPv4-mapped IPv6 addresses in the socket setters; trimming the `enr:` / `0x` prefix repeatedly; deserialising into a borrowed `&str`; accepting high-S, DER or left-padded signatures; a `length()` override that miscounts one-byte or long keys; a verification cache shared across key types; a builder `sanitized` flag; `split_at` on a non-character boundary; a length compared after truncation to u16; remembering which identity scheme resolved the previous record; treating keys that merely start with `tcp`/`udp` as ports; `unwrap()` on `from_utf8` or short slices inside `log::debug!`/`trace!` arguments; a restore placed inside `debug_assert!`; an undo journal that records an intermediate value; comparing whole records with `==` to decide whether to roll back; draining a list inside a `log::trace!` argument; a memo of the last Display/base64 string; a cache of the last socket address"""
+AVOID = """a cache of a decompressed public key looked up by the x coordinate only; a thread-local scratch buffer that is not cleared on an error path; skipping or mis-computing the size re-check after signing when the sequence number's encoding grows; IPv4-mapped IPv6 addresses in the socket setters; trimming the `enr:` / `0x` prefix repeatedly; deserialising into a borrowed `&str`; accepting high-S, DER or left-padded signatures; a `length()` override that miscounts one-byte or long keys; a verification cache shared across key types; a builder `sanitized` flag; `split_at` on a non-character boundary; a length compared after truncation to u16; remembering which identity scheme resolved the previous record; treating keys that merely start with `tcp`/`udp` as ports; `unwrap()` on `from_utf8` or short slices inside `log::debug!`/`trace!` arguments; a restore placed inside `debug_assert!`; an undo journal that records an intermediate value; comparing whole records with `==` to decide whether to roll back; draining a list inside a `log::trace!` argument; a memo of the last Display/base64 string; a cache of the last socket address; a hand-rolled sequence-number parser without the 8-byte limit; a list-header helper that is off by one at 55/56 or 255/256 bytes; a memo of the last verified record compared with `==`; comparing keys by their first 8 bytes; a builder that memoises the bytes it signs; recomputing the node id only when the public-key entry changed; trying SEC1/DER or keypair formats before the raw secret; word-wise zeroing that skips an unaligned tail; a minimum-size pre-check on the buffer; peeking at the next item inside a `log_enabled!` block"""
 text = f"""You are helping to evaluate a verification framework for a Rust library by writing realistic *faulty* variants of that library (seeded bugs). Work ONLY inside the git worktree at {wt} (a checkout of the library `enr`: Rust implementation of Ethereum Node Records, EIP-778). Do not read or touch anything under /verif or /repo, and do not look for other copies of test harnesses; use only the library's own sources, its README and its own tests.
 
 The property that your change must BREAK:
